@@ -6,7 +6,7 @@ echo "| seeded change | property | check exit | verdict line |" > /tmp/_res.md; 
 for N in $NAMES; do
   P=${N%%-*}
   git -C /repo apply "$PWD/seeded/$N/patch.diff" 2>/dev/null || { echo "| $N | $P | - | patch does not apply to the current /repo |" >> /tmp/_res.md; continue; }
-  OUT=$(VERIF_NO_FINGERPRINT_ESCALATION=1 VERIF_EVIDENCE_DIR=/tmp/_seeded_evidence ./check $P 2>&1); RC=$?
+  OUT=$(VERIF_NO_FINGERPRINT_ESCALATION=1 VERIF_EVIDENCE_DIR=/tmp/_seeded_evidence VERIF_REPLAY_DIR=/tmp/_seeded_replays ./check $P 2>&1); RC=$?
   git -C /repo checkout -- .
   V=$(echo "$OUT" | grep -E "VIOLATION" | head -1 | sed 's|/verif/||')
   echo "| $N | $P | $RC | ${V:-none} |" >> /tmp/_res.md
